@@ -50,7 +50,10 @@ ReachClauses(g, orc, p) ==
     ELSE
       {"C01.Numeric s=" \o S2(s) : s \in {s \in States(g) : p[s].k # "ok"}}
       \cup {"C01.FinalOne s=" \o S2(s) : s \in {s \in FinalSet(g) : ~p[s].o}}
-      \cup {"C01.ZeroExact s=" \o S2(s) : s \in {s \in States(g) : p[s].z # (s \in orc.zero)}}
+      \* value 0 (in particular: no path to a final state) must be reported as exactly 0;
+      \* the converse is not demanded by C01 (a tiny positive value may be reported as 0,
+      \* clause Within bounds how tiny)
+      \cup {"C01.ZeroExact s=" \o S2(s) : s \in {s \in orc.zero : ~p[s].z}}
       \cup (IF orc.exact
             THEN {"C01.NotAbove s=" \o S2(s) :
                      s \in {s \in States(g) : ~FixLeqTol(Fx(p[s]), orc.rvf[s], 2)}}
